@@ -229,6 +229,9 @@ for k in ["fixed32", "fixed4096", "fixed_max", "multipart"]:
 M_TABLE.harnesses.append(H("canary_u9_value", "U9", kind="canary"))
 M_LOG = KModule("log", "src/log.rs", "verif_log", "log.rs")
 M_TABLE.deps = (M_LOG,)
+# (u26_* exist in the contract file but std HashMap (hashbrown) insertion does not finish symbolic execution within budget; not registered)
+for n in []:
+    M_LOG.harnesses.append(H(n, "U26", shape="LogWriter::insert_%s called three times on two chunks of one table; slots, record id and contents arbitrary" % ("ref_count" if "ref" in n else "index")))
 
 # ---------------------------------------------------------------- column.rs
 U11_WELL = [(0, 0), (0, 3), (1, 0), (1, 3), (2, 5), (3, 1)]
@@ -496,6 +499,7 @@ UNIT_META = {
     "U22": {"functions": ["column::HashColumn::{trigger_reindex,drop_index}"], "assumes": ["IndexTable::drop_file replaced by a counter (file removal)"]},
     "U23": {"functions": ["btree::btree::BTree::write_sorted_changes"], "assumes": ["Node::change / need_remove_root / BTree::fetch_root / BTreeTable::write_node_plan / write_plan_remove_node replaced by contracts (scripted outcomes)"]},
     "U24": {"functions": ["db::Operation::{cmp,partial_cmp,key}"], "assumes": []},
+    "U26": {"functions": ["log::LogWriter::{insert_index,insert_ref_count}"], "assumes": ["RandomState::new stubbed to fixed keys (hash seeds do not affect map semantics)", "chunk numbers are concrete (5 and 9): the map is the real std HashMap"]},
     "U11": {"functions": ["column::{unpack_node_data,unpack_node_children,packed_node_size,packed_child_count}"], "assumes": []},
     "U14": {"functions": ["table::ValueTable::{clear_slot,next_free,read_next_free,complete_plan,write_remove_plan,clear_chain}"], "assumes": ["LogWriter ghost view"]},
     "index_search": {"functions": ["index::Entry::*", "index::Address::*", "index::IndexTable::{chunk_index,find_entry_base}"], "assumes": ["read_entry contract (external_body; proved by Kani U1.read_entry_is_le_word)"]},
